@@ -1,6 +1,7 @@
 package json
 
 import (
+	"bytes"
 	"github.com/go-json-experiment/json/internal/jsonopts"
 	"github.com/go-json-experiment/json/internal/zzverif/vrt"
 	"github.com/go-json-experiment/json/internal/zzverif/zzspec"
@@ -101,4 +102,61 @@ func VerifC03Intern(n int, sameLen bool) {
 		}
 		vrt.Assert("C03/intern/cached", hits >= 1)
 	}
+}
+
+// VerifC03Route: the same tree whichever route is taken through the real Unmarshal:
+// target 0: *any (specialised fast path); 1: *any with AllowDuplicateNames(true) (the fast
+// path is disabled: generic interface/map/slice arshalers through reflection); 2: a
+// map[string]any target; 3: a []any target; 4: UnmarshalRead from a reader into *any.
+// Accepted iff the text is valid (and an object/array for the typed targets); on acceptance
+// the value equals the reference tree.
+func VerifC03Route(tmpl string, target int) {
+	b := vrt.Template("b", tmpl)
+	valid := zzspec.ValidText(b, true, true, 10000)
+	var got any
+	var err error
+	switch target {
+	case 0:
+		err = Unmarshal(b, &got)
+	case 1:
+		err = Unmarshal(b, &got, jsontext.AllowDuplicateNames(true))
+		valid = zzspec.ValidText(b, true, false, 10000)
+	case 2:
+		var m map[string]any
+		err = Unmarshal(b, &m)
+		if m != nil {
+			got = m
+		}
+	case 3:
+		var s []any
+		err = Unmarshal(b, &s)
+		if s != nil {
+			got = s
+		}
+	default:
+		err = UnmarshalRead(bytes.NewReader(b), &got)
+	}
+	vrt.Observe("errnil", err == nil)
+	if !valid {
+		vrt.Cover("reject")
+		vrt.Assert("C03/route/invalid-rejected", err != nil)
+		return
+	}
+	want, inRange := zzspec.ParseAny(b)
+	if !inRange {
+		vrt.Assert("C03/route/overflow-is-error", err != nil)
+		return
+	}
+	// a valid text of the wrong kind for a typed target is a (semantic) error, not a value
+	if _, isObj := want.(map[string]any); target == 2 && !isObj && want != nil {
+		vrt.Assert("C03/route/kind-mismatch-rejected", err != nil)
+		return
+	}
+	if _, isArr := want.([]any); target == 3 && !isArr && want != nil {
+		vrt.Assert("C03/route/kind-mismatch-rejected", err != nil)
+		return
+	}
+	vrt.Cover("accept")
+	vrt.Assert("C03/route/valid-accepted", err == nil)
+	vrt.Assert("C03/route/same-tree", zzspec.EqualAny(got, want))
 }
